@@ -184,3 +184,41 @@ def _arrays_only(tree):
 
 def tolist(x):
     return jax.tree.map(lambda v: np.asarray(v).tolist() if hasattr(v, "shape") and not jax.dtypes.issubdtype(v.dtype, jax.dtypes.prng_key) else "<key>", x)
+
+
+def uf_names_of(arrs, ctx):
+    """names of all uninterpreted functions a list of SArr leaves depends on, looking through reduction symbols into their bodies"""
+    from . import ir
+    import z3
+    red = {r.sym.get_id(): r for r in ctx.reductions}
+    names, seen, stack = set(), set(), []
+    for l in arrs:
+        idx = tuple(z3.Int(f"u{k}") if not isinstance(dd, int) else None for k, dd in enumerate(l.shape))
+        if all(isinstance(dd, int) for dd in l.shape):
+            for ix in l.indices():
+                t = l.at(ix)
+                if ir.is_z3(t):
+                    stack.append(t)
+        else:
+            t = l.at(tuple(z3.Int(f"u{k}") if not isinstance(dd, int) else 0 for k, dd in enumerate(l.shape)))
+            if ir.is_z3(t):
+                stack.append(t)
+    jj = z3.Int("ufn!j")
+    while stack:
+        t = stack.pop()
+        i = t.get_id()
+        if i in seen:
+            continue
+        seen.add(i)
+        if i in red:
+            bt = red[i].body(jj)
+            red.update({r.sym.get_id(): r for r in ctx.reductions})
+            if ir.is_z3(bt):
+                stack.append(bt)
+            continue
+        if z3.is_app(t) and t.decl().kind() == z3.Z3_OP_UNINTERPRETED and t.num_args() > 0:
+            names.add(t.decl().name())
+        stack.extend(t.children())
+    return names
+
+
